@@ -203,6 +203,14 @@ func init() {
 	})
 	reg("("+pSdk+"AccAddress).Empty", func(c *LibCtx, a []*Val) *Val { return boolVal(Eq(StrLen(a[0].T), Num(0))) })
 	reg("("+pSdk+"AccAddress).Equals", func(c *LibCtx, a []*Val) *Val {
+		// the argument is an sdk.Address interface; when it holds an AccAddress the comparison is of the address bytes
+		if o := a[1]; o.K == VIface && o.Tag != nil && o.Tag.K == TNum {
+			if T := typeIDTypes[int(o.Tag.Num.Int64())]; T != nil && namedName(types.Unalias(T)) == tyAccAddr {
+				if u := c.x.unbox(c.st, o, T); u != nil && u.K == VStr {
+					return boolVal(Eq(a[0].T, u.T))
+				}
+			}
+		}
 		c.x.note("AccAddress.Equals: interface argument compared abstractly")
 		return boolVal(Const(freshName("addrEq"), SBool))
 	})
